@@ -4,7 +4,7 @@ MCVarVal == ("x" :> <<5, 1>> @@ "x_1" :> <<7, 1>>)
 MCFuncArity == ("f" :> 1 @@ "g" :> 2)
 MCSufVal == ("k" :> <<1000, 1>> @@ "%" :> <<1, 100>>)
 MCTokOf == [ n2 |-> Num(2, 1), n3 |-> Num(3, 1), x |-> Name("x", TRUE), y |-> Name("x_1", FALSE), u |-> Name("u", TRUE),
-             k |-> Name("k", TRUE), f |-> Name("f", TRUE), g |-> Name("g", TRUE), pct |-> Pct,
+             n23 |-> Num(23, 1), xx |-> Name("xx_1", FALSE), k |-> Name("k", TRUE), f |-> Name("f", TRUE), g |-> Name("g", TRUE), pct |-> Pct,
              lp |-> Op("("), rp |-> Op(")"), lb |-> Op("["), rb |-> Op("]"), cm |-> Op(","),
              pl |-> Op("+"), mi |-> Op("-"), ti |-> Op("*"), dv |-> Op("/"), pw |-> Op("^"), br |-> Op("|") ]
 MCText == [ s01 |-> [ids |-> <<"x", "pl", "n2">>, key |-> "K01"],
@@ -20,7 +20,13 @@ MCText == [ s01 |-> [ids |-> <<"x", "pl", "n2">>, key |-> "K01"],
             s11 |-> [ids |-> <<"f", "lp", "u", "cm", "rp">>, key |-> "K10"],  \* unparsable, callbacks saw u (and f)
             s12 |-> [ids |-> <<"g", "lp", "x", "cm", "y", "rp">>, key |-> "K11"],
             s13 |-> [ids |-> <<"n2", "pw", "mi", "n3">>, key |-> "K12"],
-            s14 |-> [ids |-> <<"k", "lp", "n2", "pct", "rp", "dv", "u">>, key |-> "K13"] ]
+            s14 |-> [ids |-> <<"k", "lp", "n2", "pct", "rp", "dv", "u">>, key |-> "K13"],
+            \* pairs that differ only by a TAB / line break between two tokens: juxtaposition is not in the grammar,
+            \* the glued spelling is a different, valid string with its own cache key
+            s15 |-> [ids |-> <<"n23">>, key |-> "K14"],                     \* 23
+            s16 |-> [ids |-> <<"n2", "n3">>, key |-> "K15"],                \* 2 TAB 3
+            s17 |-> [ids |-> <<"xx">>, key |-> "K16"],                      \* xx_1 (undefined variable)
+            s18 |-> [ids |-> <<"x", "y">>, key |-> "K17"] ]                 \* x TAB x_1
 AllStrings == DOMAIN MCText
-Small == {"s01", "s02", "s05", "s08", "s10", "s11"}
+Small == {"s01", "s02", "s05", "s08", "s10", "s11", "s16"}
 =============================================================================
